@@ -52,7 +52,6 @@ class Prop:
     engine = "AIO+VT+TH (deterministic asyncio loop; virtual time; controlled threads for run())"
     quick_runs = 50000
     thorough_runs = 600000
-    quick_budget = 80.0
     chunk = 200
     rule = ("seeded scenarios of six kinds: from_future over asyncio futures on the deterministic loop and over concurrent futures "
             "(result / exception / cancellation / unsubscribe first, subscription before or after completion); to_future and await on "
